@@ -320,6 +320,22 @@ Theorem C02_consts_observation :
 Proof. exact ts_consts_val. Qed.
 Print Assumptions C02_consts_observation.
 
+(** * The [Default] impls (op ts.defaults): NaiveDate::default() is the date the checked constructor returns for
+      (1970, 1, 1), NaiveTime::default() is 00:00:00, NaiveDateTime::default() is the epoch value NDT_EPOCH of
+      C02_consts (valid, non-leap, instant 0, timestamp 0), DateTime::<Utc>::default() and
+      DateTime::<FixedOffset>::default() are that value with offset 0; none of them panics. *)
+Theorem C02_defaults :
+  date_default = Val D_EPOCH /\ time_default = Val T_MIN /\ ndt_default = Val NDT_EPOCH /\
+  dtz_default_utc = Val (mk_dtz NDT_EPOCH 0) /\ dtz_default_fixed = Val (mk_dtz NDT_EPOCH 0).
+Proof. exact defaults_spec. Qed.
+Print Assumptions C02_defaults.
+(* the observation the op reports: the five values and the timestamps (0) of the two zoned ones *)
+Theorem C02_defaults_observation :
+  ts_defaults = Val (VTup [enc_date D_EPOCH; Time.enc_time T_MIN; enc_ndt NDT_EPOCH;
+                           enc_dtz (mk_dtz NDT_EPOCH 0); enc_dtz (mk_dtz NDT_EPOCH 0); VInt 0; VInt 0]).
+Proof. exact ts_defaults_val. Qed.
+Print Assumptions C02_defaults_observation.
+
 (** * The accessor observation of op ts.of / ts.naive_of, as a value: on a non-leap value all seven readings
       are functions of the instant; on a leap-second value (any second) nothing panics and the documented
       pair (timestamp, subsec_nanos) and the sub-second quotients are as stated *)
@@ -340,10 +356,10 @@ Theorem C02_timestamp_nanos_opt_total : forall a, valid_ndt a -> exists r, dt_ti
 Proof. exact nanos_opt_total. Qed.
 Print Assumptions C02_timestamp_nanos_opt_total.
 
-(** * C02_holds: on EVERY case line - all 27 ops of the dispatcher (constructors in the four reporting
+(** * C02_holds: on EVERY case line - all 28 ops of the dispatcher (constructors in the four reporting
       styles Option / panic / MappedLocalTime / DateTime<Tz>, accessors incl. leap-second values, the round
       trips in both directions, the deprecated NaiveDateTime wrappers, both SystemTime conversions, the
-      constants), arbitrary argument lists - whenever the judge of Judge/C02.v has an opinion (the case is
+      constants, the Default impls), arbitrary argument lists - whenever the judge of Judge/C02.v has an opinion (the case is
       in the property's domain) it accepts the model's output.  Supersedes the per-op forms
       C02_holds_from .. C02_holds_of above (kept under their names). *)
 Theorem C02_holds : forall op args,
